@@ -7,27 +7,96 @@
    lex.cpp  (reference parameter `const char *&c` becomes `const char **c_`,
    the body sees `c` through `#define c (*c_)`)
    ====================================================================== */
-#define CURSOR_PRE  (BUF_FRESH && __CPROVER_is_fresh(c_, sizeof(*c_)) && CUR_IN_BUF(*c_))
+/* c_ is the address of the caller's cursor variable, outside the buffer */
+#define CURSOR_REF_OK (__CPROVER_w_ok(c_, sizeof(*c_)) && !__CPROVER_same_object(c_, verif_buf))
+#define CURSOR_PRE  (BUF_OK && CURSOR_REF_OK && CUR_IN_BUF(*c_))
 /* the cursor stays inside the buffer and never moves backwards */
 #define CURSOR_POST (IN_BUF(*c_) && OFF(*c_) >= OFF(__CPROVER_old(*c_)))
 #define CURSOR_INV  (IN_BUF(*c_) && OFF(*c_) >= OFF(__CPROVER_loop_entry(*c_)))
 #define CUR_SKIPPED      SKIPPED(__CPROVER_old(*c_), *c_)
 #define CUR_SKIPPED_INV  SKIPPED(__CPROVER_loop_entry(*c_), *c_)
-#define BUF_G (verif_buf[verif_g])
 #define IS_WS(ch) ((ch) == ' ' || (ch) == '\t' || (ch) == '\r' || (ch) == '\n' || (ch) == '\v' || (ch) == '\f')
+/* The membership table of the six whitespace characters, entry by entry.
+   isWhitespace / skipWhitespace / skipToWhitespace do not mention the ghost
+   table in their contracts (and no real code can read a ghost), so their
+   contracts hold for every table as soon as they are proved for one: their
+   harnesses install THIS table (verif_install_ws_table below) so that the
+   table-based contracts of inCharset / skipFrom / skipTo they are checked
+   against speak about whitespace.  That this table is the characteristic
+   function of the real array lex::whitespaceCharset is group
+   lex/whitespace-table. */
+#define WS_TABLE \
+  (!verif_member[0] && !verif_member[1] && !verif_member[2] && !verif_member[3] && !verif_member[4] && !verif_member[5] && !verif_member[6] && !verif_member[7] && \
+   !verif_member[8] && verif_member[9] && verif_member[10] && verif_member[11] && verif_member[12] && verif_member[13] && !verif_member[14] && !verif_member[15] && \
+   !verif_member[16] && !verif_member[17] && !verif_member[18] && !verif_member[19] && !verif_member[20] && !verif_member[21] && !verif_member[22] && !verif_member[23] && \
+   !verif_member[24] && !verif_member[25] && !verif_member[26] && !verif_member[27] && !verif_member[28] && !verif_member[29] && !verif_member[30] && !verif_member[31] && \
+   verif_member[32] && !verif_member[33] && !verif_member[34] && !verif_member[35] && !verif_member[36] && !verif_member[37] && !verif_member[38] && !verif_member[39] && \
+   !verif_member[40] && !verif_member[41] && !verif_member[42] && !verif_member[43] && !verif_member[44] && !verif_member[45] && !verif_member[46] && !verif_member[47] && \
+   !verif_member[48] && !verif_member[49] && !verif_member[50] && !verif_member[51] && !verif_member[52] && !verif_member[53] && !verif_member[54] && !verif_member[55] && \
+   !verif_member[56] && !verif_member[57] && !verif_member[58] && !verif_member[59] && !verif_member[60] && !verif_member[61] && !verif_member[62] && !verif_member[63] && \
+   !verif_member[64] && !verif_member[65] && !verif_member[66] && !verif_member[67] && !verif_member[68] && !verif_member[69] && !verif_member[70] && !verif_member[71] && \
+   !verif_member[72] && !verif_member[73] && !verif_member[74] && !verif_member[75] && !verif_member[76] && !verif_member[77] && !verif_member[78] && !verif_member[79] && \
+   !verif_member[80] && !verif_member[81] && !verif_member[82] && !verif_member[83] && !verif_member[84] && !verif_member[85] && !verif_member[86] && !verif_member[87] && \
+   !verif_member[88] && !verif_member[89] && !verif_member[90] && !verif_member[91] && !verif_member[92] && !verif_member[93] && !verif_member[94] && !verif_member[95] && \
+   !verif_member[96] && !verif_member[97] && !verif_member[98] && !verif_member[99] && !verif_member[100] && !verif_member[101] && !verif_member[102] && !verif_member[103] && \
+   !verif_member[104] && !verif_member[105] && !verif_member[106] && !verif_member[107] && !verif_member[108] && !verif_member[109] && !verif_member[110] && !verif_member[111] && \
+   !verif_member[112] && !verif_member[113] && !verif_member[114] && !verif_member[115] && !verif_member[116] && !verif_member[117] && !verif_member[118] && !verif_member[119] && \
+   !verif_member[120] && !verif_member[121] && !verif_member[122] && !verif_member[123] && !verif_member[124] && !verif_member[125] && !verif_member[126] && !verif_member[127] && \
+   !verif_member[128] && !verif_member[129] && !verif_member[130] && !verif_member[131] && !verif_member[132] && !verif_member[133] && !verif_member[134] && !verif_member[135] && \
+   !verif_member[136] && !verif_member[137] && !verif_member[138] && !verif_member[139] && !verif_member[140] && !verif_member[141] && !verif_member[142] && !verif_member[143] && \
+   !verif_member[144] && !verif_member[145] && !verif_member[146] && !verif_member[147] && !verif_member[148] && !verif_member[149] && !verif_member[150] && !verif_member[151] && \
+   !verif_member[152] && !verif_member[153] && !verif_member[154] && !verif_member[155] && !verif_member[156] && !verif_member[157] && !verif_member[158] && !verif_member[159] && \
+   !verif_member[160] && !verif_member[161] && !verif_member[162] && !verif_member[163] && !verif_member[164] && !verif_member[165] && !verif_member[166] && !verif_member[167] && \
+   !verif_member[168] && !verif_member[169] && !verif_member[170] && !verif_member[171] && !verif_member[172] && !verif_member[173] && !verif_member[174] && !verif_member[175] && \
+   !verif_member[176] && !verif_member[177] && !verif_member[178] && !verif_member[179] && !verif_member[180] && !verif_member[181] && !verif_member[182] && !verif_member[183] && \
+   !verif_member[184] && !verif_member[185] && !verif_member[186] && !verif_member[187] && !verif_member[188] && !verif_member[189] && !verif_member[190] && !verif_member[191] && \
+   !verif_member[192] && !verif_member[193] && !verif_member[194] && !verif_member[195] && !verif_member[196] && !verif_member[197] && !verif_member[198] && !verif_member[199] && \
+   !verif_member[200] && !verif_member[201] && !verif_member[202] && !verif_member[203] && !verif_member[204] && !verif_member[205] && !verif_member[206] && !verif_member[207] && \
+   !verif_member[208] && !verif_member[209] && !verif_member[210] && !verif_member[211] && !verif_member[212] && !verif_member[213] && !verif_member[214] && !verif_member[215] && \
+   !verif_member[216] && !verif_member[217] && !verif_member[218] && !verif_member[219] && !verif_member[220] && !verif_member[221] && !verif_member[222] && !verif_member[223] && \
+   !verif_member[224] && !verif_member[225] && !verif_member[226] && !verif_member[227] && !verif_member[228] && !verif_member[229] && !verif_member[230] && !verif_member[231] && \
+   !verif_member[232] && !verif_member[233] && !verif_member[234] && !verif_member[235] && !verif_member[236] && !verif_member[237] && !verif_member[238] && !verif_member[239] && \
+   !verif_member[240] && !verif_member[241] && !verif_member[242] && !verif_member[243] && !verif_member[244] && !verif_member[245] && !verif_member[246] && !verif_member[247] && \
+   !verif_member[248] && !verif_member[249] && !verif_member[250] && !verif_member[251] && !verif_member[252] && !verif_member[253] && !verif_member[254] && !verif_member[255])
 #define WS_SET (verif_cs == lex_whitespaceCharset && verif_cs_len == 6)
+#define INSTALL_WS_TABLE do { \
+    __CPROVER_array_set(verif_member, (_Bool) 0); \
+    verif_member[' '] = 1; verif_member['\t'] = 1; verif_member['\r'] = 1; \
+    verif_member['\n'] = 1; verif_member['\v'] = 1; verif_member['\f'] = 1; } while (0)
 
 /* bool inCharset(const char c, const char *charset) */
+#ifdef C12_ANYSET
+/* memory safety + termination for a set of any length */
 #define CONTRACT_lex_inCharset \
-  __CPROVER_requires(CS_FRESH(charset)) \
+  __CPROVER_requires(CS_FRESH_ANY(charset)) \
   __CPROVER_ensures(__CPROVER_return_value ==> c != 0) \
-  __CPROVER_ensures(CS_EXACT ==> (__CPROVER_return_value == CS_MEMBER(c))) \
   __CPROVER_assigns()
 #define LOOP_lex_inCharset_0 \
   __CPROVER_assigns(charset) \
   __CPROVER_loop_invariant(__CPROVER_same_object(charset, verif_cs) && OFF(charset) <= verif_cs_len) \
-  __CPROVER_loop_invariant(CS_EXACT ==> !CS_MEMBER_BELOW(c, OFF(charset))) \
   __CPROVER_decreases(verif_cs_len - OFF(charset))
+#else
+/* for a set of at most VERIF_K characters whose membership table is
+   verif_member: the result is the table entry; and (where the link is not
+   compiled out) the table entry is exact membership in the string */
+#ifdef C12_LINK_ASSUMED
+#define INCHARSET_FLAT_POST
+#define INCHARSET_FLAT_INV
+#else
+#define INCHARSET_FLAT_POST __CPROVER_ensures(__CPROVER_return_value == CS_MEMBER(c))
+#define INCHARSET_FLAT_INV  __CPROVER_loop_invariant(!CS_MEMBER_BELOW(c, OFF(charset)))
+#endif
+#define CONTRACT_lex_inCharset \
+  __CPROVER_requires(CS_PRE(charset) && CS_LINK(c)) \
+  __CPROVER_ensures(__CPROVER_return_value == (c != 0 && IN_SET(c))) \
+  INCHARSET_FLAT_POST \
+  __CPROVER_assigns()
+#define LOOP_lex_inCharset_0 \
+  __CPROVER_assigns(charset) \
+  __CPROVER_loop_invariant(__CPROVER_same_object(charset, verif_cs) && OFF(charset) <= verif_cs_len) \
+  INCHARSET_FLAT_INV \
+  __CPROVER_decreases(verif_cs_len - OFF(charset))
+#endif
 
 /* void skipTo(const char *&c, const char delimiter):
    stops at NUL or at the first occurrence of delimiter */
@@ -47,7 +116,7 @@
    stops at NUL or at delimiter; a delimiter that was passed over directly
    follows an escape character (when delimiter != escapeChar) */
 #define ESC_SKIP_OK(entry, isdelim) \
-  ((isdelim) ==> ((escapeChar != 0) && verif_g > OFF(entry) && verif_buf[verif_g - 1] == escapeChar))
+  ((isdelim) ==> ((escapeChar != 0) && verif_g > OFF(entry) && BUF_GP == escapeChar))
 #define CONTRACT_lex_skipTo_ce \
   __CPROVER_requires(CURSOR_PRE) \
   __CPROVER_ensures(CURSOR_POST) \
@@ -67,46 +136,46 @@
 /* void skipTo(const char *&c, const char *delimiters):
    stops at NUL or at the first character that is in the set */
 #define CONTRACT_lex_skipTo_s \
-  __CPROVER_requires(CURSOR_PRE && CS_FRESH(delimiters)) \
+  __CPROVER_requires(CURSOR_PRE && CS_PRE(delimiters)) \
   __CPROVER_ensures(CURSOR_POST) \
-  __CPROVER_ensures(**c_ == 0 || !CS_EXACT || CS_MEMBER(**c_)) \
-  __CPROVER_ensures(CUR_SKIPPED ==> (BUF_G != 0 && (CS_EXACT ==> !CS_MEMBER(BUF_G)))) \
+  __CPROVER_ensures(**c_ == 0 || IN_SET(**c_)) \
+  __CPROVER_ensures(CUR_SKIPPED ==> (BUF_G != 0 && !IN_SET(BUF_G))) \
   __CPROVER_assigns(*c_)
 #define LOOP_lex_skipTo_s_0 \
   __CPROVER_assigns(*c_) \
   __CPROVER_loop_invariant(CURSOR_INV) \
-  __CPROVER_loop_invariant(CUR_SKIPPED_INV ==> (BUF_G != 0 && (CS_EXACT ==> !CS_MEMBER(BUF_G)))) \
+  __CPROVER_loop_invariant(CUR_SKIPPED_INV ==> (BUF_G != 0 && !IN_SET(BUF_G))) \
   __CPROVER_decreases(verif_len - OFF(*c_))
 
 /* void skipTo(const char *&c, const char *delimiters, const char escapeChar) */
 #define CONTRACT_lex_skipTo_se \
-  __CPROVER_requires(CURSOR_PRE && CS_FRESH(delimiters)) \
+  __CPROVER_requires(CURSOR_PRE && CS_PRE(delimiters)) \
   __CPROVER_ensures(CURSOR_POST) \
-  __CPROVER_ensures(**c_ == 0 || !CS_EXACT || CS_MEMBER(**c_)) \
+  __CPROVER_ensures(**c_ == 0 || IN_SET(**c_)) \
   __CPROVER_ensures(CUR_SKIPPED ==> BUF_G != 0) \
   __CPROVER_ensures(CUR_SKIPPED ==> ESC_SKIP_OK(__CPROVER_old(*c_), \
-        CS_EXACT && CS_MEMBER(BUF_G) && !(escapeChar != 0 && BUF_G == escapeChar))) \
+        IN_SET(BUF_G) && !(escapeChar != 0 && BUF_G == escapeChar))) \
   __CPROVER_assigns(*c_)
 #define LOOP_lex_skipTo_se_0 \
   __CPROVER_assigns(*c_) \
   __CPROVER_loop_invariant(CURSOR_INV) \
   __CPROVER_loop_invariant(CUR_SKIPPED_INV ==> BUF_G != 0) \
   __CPROVER_loop_invariant(CUR_SKIPPED_INV ==> ESC_SKIP_OK(__CPROVER_loop_entry(*c_), \
-        CS_EXACT && CS_MEMBER(BUF_G) && !(escapeChar != 0 && BUF_G == escapeChar))) \
+        IN_SET(BUF_G) && !(escapeChar != 0 && BUF_G == escapeChar))) \
   __CPROVER_decreases(verif_len - OFF(*c_))
 
 /* void skipFrom(const char *&c, const char *delimiters):
    stops at NUL or at the first character that is NOT in the set */
 #define CONTRACT_lex_skipFrom \
-  __CPROVER_requires(CURSOR_PRE && CS_FRESH(delimiters)) \
+  __CPROVER_requires(CURSOR_PRE && CS_PRE(delimiters)) \
   __CPROVER_ensures(CURSOR_POST) \
-  __CPROVER_ensures(**c_ == 0 || !CS_EXACT || !CS_MEMBER(**c_)) \
-  __CPROVER_ensures(CUR_SKIPPED ==> (BUF_G != 0 && (CS_EXACT ==> CS_MEMBER(BUF_G)))) \
+  __CPROVER_ensures(**c_ == 0 || !IN_SET(**c_)) \
+  __CPROVER_ensures(CUR_SKIPPED ==> (BUF_G != 0 && IN_SET(BUF_G))) \
   __CPROVER_assigns(*c_)
 #define LOOP_lex_skipFrom_0 \
   __CPROVER_assigns(*c_) \
   __CPROVER_loop_invariant(CURSOR_INV) \
-  __CPROVER_loop_invariant(CUR_SKIPPED_INV ==> (BUF_G != 0 && (CS_EXACT ==> CS_MEMBER(BUF_G)))) \
+  __CPROVER_loop_invariant(CUR_SKIPPED_INV ==> (BUF_G != 0 && IN_SET(BUF_G))) \
   __CPROVER_decreases(verif_len - OFF(*c_))
 
 /* bool isWhitespace(const char c): the six C whitespace characters */
